@@ -9,7 +9,7 @@ echo "== demo with change (expect FAILED)"
 cargo test --offline --test seeded_demo 2>&1 | grep -E "^test result"
 git diff -- src > /tmp/seedout/$ID/patch.verify.diff
 cmp -s /tmp/seedout/$ID/patch.verify.diff /tmp/seedout/$ID/patch.diff && echo "patch.diff matches worktree" || echo "WARNING patch.diff differs from worktree diff"
-git stash -q
+git apply -R /tmp/seedout/$ID/patch.diff
 echo "== demo without change (expect ok)"
 cargo test --offline --test seeded_demo 2>&1 | grep -E "^test result"
-git stash pop -q
+git apply /tmp/seedout/$ID/patch.diff
